@@ -61,8 +61,11 @@ def gen(rng):
             prof[t, int(rng.integers(0, prof.shape[1]))] = 1e150     # a step no calculation can converge on (overflow)
             bad_steps.append(t)
     steps = [int(x) for x in rng.permutation(T)[:int(rng.integers(2, T + 1))]]
+    # a second way for a step to fail: the supply is switched off for it (every ext grid out of service), so the
+    # calculation fails before any solver stage runs
+    outage = [t for t in range(T) if rng.random() < 0.15] if rng.random() < 0.4 else []
     s["c13"] = {"profile": (prof * np.array([e["mdot"] for e in s["sinks"]])).tolist(), "steps": steps,
-                "continue": bool(rng.random() < 0.7), "infeasible": bad_steps}
+                "continue": bool(rng.random() < 0.7), "infeasible": bad_steps, "outage": outage}
     return s
 
 
@@ -70,6 +73,8 @@ def standalone(case, t):
     import pandapipes as pp
     net = netgen.build(case)
     net.sink["mdot_kg_per_s"] = case["c13"]["profile"][t]
+    if t in case["c13"].get("outage", []):
+        net.ext_grid["in_service"] = False
     try:
         pp.pipeflow(net, **case["options"])
         return net
@@ -89,6 +94,13 @@ def run_series(case):
     prof = pd.DataFrame(case["c13"]["profile"], columns=[str(i) for i in net.sink.index])
     control.ConstControl(net, element="sink", variable="mdot_kg_per_s", element_index=net.sink.index.values,
                          data_source=DFData(prof), profile_name=[str(i) for i in net.sink.index])
+    outage = case["c13"].get("outage", [])
+    if outage:
+        cols = ["eg%d" % i for i in net.ext_grid.index]
+        base = net.ext_grid.in_service.values.astype(bool)
+        sup = pd.DataFrame({c: [bool(b) and t not in outage for t in range(len(prof))] for c, b in zip(cols, base)})
+        control.ConstControl(net, element="ext_grid", variable="in_service", element_index=net.ext_grid.index.values,
+                             data_source=DFData(sup), profile_name=cols)
     steps = case["c13"]["steps"]
     ow = OutputWriter(net, steps, output_path=None, log_variables=[("res_junction", "p_bar"), ("res_pipe", "mdot_from_kg_per_s"),
                                                                     ("res_ext_grid", "mdot_kg_per_s")])
@@ -147,7 +159,7 @@ def oracle(case):
                 break
     return {"status": "ok", "failures": fails, "hash": netgen.structure_hash(case) + str(steps), "nontrivial": n_div > 0 or len(steps) > 2,
             "tags": ["continue" if case["c13"]["continue"] else "stop", "div:%d" % min(n_div, 2)],
-            "sample": {"net": netgen.summarize(case), "steps": steps, "infeasible": case["c13"]["infeasible"],
+            "sample": {"net": netgen.summarize(case), "steps": steps, "infeasible": case["c13"]["infeasible"], "outage": case["c13"].get("outage", []),
                        "continue": case["c13"]["continue"]}}
 
 
